@@ -42,6 +42,7 @@ type SLoop struct {
 type SAlt struct {
 	Cond     ast.Expr
 	CondPath string
+	CondNNF  []string // conjuncts of the condition, negation pushed inward, positive-form atoms
 	Then     Shape
 	Else     Shape
 	Pred     *textPred // set when the condition is a recognised predicate of a string whose shape is known
@@ -512,6 +513,10 @@ func (se *ShapeEval) stmt(fr *shapeFrame, s ast.Stmt) {
 				}
 				for i, name := range vs.Names {
 					o := info.Defs[name]
+					if o != nil && isStringsBuilder(o.Type()) && i >= len(vs.Values) {
+						fr.env[o] = &SLit{""} // var sb strings.Builder: an accumulating string
+						continue
+					}
 					if o == nil || !isStringType(o.Type()) {
 						continue
 					}
@@ -561,6 +566,10 @@ func (se *ShapeEval) stmt(fr *shapeFrame, s ast.Stmt) {
 				if isStringType(lt) {
 					se.errf(x.Pos(), "string stored to an unsupported target %s", exprString(l))
 				}
+				continue
+			}
+			if isStringsBuilder(o.Type()) && x.Tok == token.DEFINE {
+				fr.env[o] = &SLit{""}
 				continue
 			}
 			if !isStringType(o.Type()) {
@@ -634,6 +643,9 @@ func (se *ShapeEval) stmt(fr *shapeFrame, s ast.Stmt) {
 	case *ast.ExprStmt:
 		// calls without string results do not change tracked state, except builder sub-calls
 		if call, ok := x.X.(*ast.CallExpr); ok {
+			if se.builderWrite(fr, call) {
+				return
+			}
 			if f := callee(info, call); f != nil {
 				if ref := se.c.FuncOf(f); ref != nil && ref.Decl.Recv != nil && strings.HasPrefix(f.Name(), "build") {
 					sub := se.newFrame(ref)
@@ -743,7 +755,7 @@ func (se *ShapeEval) mergeAlt(fr *shapeFrame, cond ast.Expr, a, b Shape) Shape {
 	pa = append(common, pa...)
 	pb = append(append([]Shape{}, common...), pb...)
 	n = len(common)
-	alt := &SAlt{Cond: cond, CondPath: fr.pc.path(cond), Then: cat(pa[n:]...), Else: cat(pb[n:]...)}
+	alt := &SAlt{Cond: cond, CondPath: fr.pc.path(cond), CondNNF: nnfAtoms(fr.pc, cond, false), Then: cat(pa[n:]...), Else: cat(pb[n:]...)}
 	if pred := se.textPredOf(fr, cond); pred != nil && shapeHasUserText(pred.Subject) {
 		alt.Pred = pred
 	}
@@ -940,6 +952,11 @@ func (se *ShapeEval) expr(fr *shapeFrame, e ast.Expr) Shape {
 			if v, ok := se.fields[fv]; ok {
 				return v
 			}
+			if isStringType(fv.Type()) {
+				// a string field of the freshly made builder that no step has assigned yet: its zero value
+				// (the same reading `b.F += x` gives it)
+				return &SLit{""}
+			}
 		}
 		return se.hole(fr, "s", e)
 	case *ast.CallExpr:
@@ -949,6 +966,14 @@ func (se *ShapeEval) expr(fr *shapeFrame, e ast.Expr) Shape {
 			name = f.FullName()
 		}
 		switch name {
+		case "(*strings.Builder).String":
+			if sel, ok := unparen(x.Fun).(*ast.SelectorExpr); ok {
+				if o := builderObj(info, sel.X); o != nil {
+					if v, ok := fr.env[o]; ok {
+						return v
+					}
+				}
+			}
 		case "fmt.Sprintf":
 			if len(x.Args) == 0 {
 				break
@@ -1137,6 +1162,12 @@ func (se *ShapeEval) regexRepl(fr *shapeFrame, call *ast.CallExpr) Shape {
 	}
 	pattern := se.regexPatternOf(fr, sel.X)
 	fl, ok := unparen(call.Args[1]).(*ast.FuncLit)
+	if !ok {
+		// a closure held in a local with a single definition: `repl := func(s string) string {…}`
+		if o := identObj(info, call.Args[1]); o != nil && fr.pc != nil && fr.pc.defs != nil && fr.pc.defs.count[o] == 1 {
+			fl, ok = unparen(fr.pc.defs.single[o]).(*ast.FuncLit)
+		}
+	}
 	if pattern == "" || !ok || len(fl.Type.Params.List) != 1 || len(fl.Type.Params.List[0].Names) != 1 {
 		se.errf(call.Pos(), "ReplaceAllStringFunc: pattern is not a constant or the replacement is not a function literal")
 		return se.hole(fr, "s", call)
@@ -1323,4 +1354,99 @@ func plainWriterHelper(c *Ctx, f *types.Func) bool {
 		}
 	}
 	return true
+}
+
+func isStringsBuilder(t types.Type) bool {
+	if p, ok := t.(*types.Pointer); ok {
+		t = p.Elem()
+	}
+	n, ok := t.(*types.Named)
+	return ok && n.Obj().Pkg() != nil && n.Obj().Pkg().Path() == "strings" && n.Obj().Name() == "Builder"
+}
+
+// builderObj: e is a local strings.Builder `sb` or its address `&sb`.
+func builderObj(info *types.Info, e ast.Expr) types.Object {
+	e = unparen(e)
+	if u, ok := e.(*ast.UnaryExpr); ok && u.Op == token.AND {
+		e = unparen(u.X)
+	}
+	o := identObj(info, e)
+	if o == nil || !isStringsBuilder(o.Type()) {
+		return nil
+	}
+	return o
+}
+
+// builderWrite models writes to a local strings.Builder as appends to a string variable:
+// sb.WriteString(x), sb.WriteByte/WriteRune(const), fmt.Fprintf(&sb, f, a…), fmt.Fprint(&sb, a…), fmt.Fprintln(&sb, a…).
+func (se *ShapeEval) builderWrite(fr *shapeFrame, call *ast.CallExpr) bool {
+	info := fr.info
+	f := callee(info, call)
+	if f == nil {
+		return false
+	}
+	appendTo := func(o types.Object, v Shape) {
+		fr.env[o] = cat(fr.env[o], v)
+	}
+	switch f.FullName() {
+	case "(*strings.Builder).WriteString":
+		if sel, ok := unparen(call.Fun).(*ast.SelectorExpr); ok && len(call.Args) == 1 {
+			if o := builderObj(info, sel.X); o != nil {
+				if _, known := fr.env[o]; known {
+					appendTo(o, se.expr(fr, call.Args[0]))
+					return true
+				}
+			}
+		}
+	case "(*strings.Builder).WriteByte", "(*strings.Builder).WriteRune":
+		if sel, ok := unparen(call.Fun).(*ast.SelectorExpr); ok && len(call.Args) == 1 {
+			if o := builderObj(info, sel.X); o != nil {
+				if _, known := fr.env[o]; known {
+					if v, isC := constInt(info, call.Args[0]); isC {
+						appendTo(o, &SLit{string(rune(v))})
+					} else {
+						appendTo(o, se.hole(fr, "c", call.Args[0]))
+					}
+					return true
+				}
+			}
+		}
+	case "fmt.Fprintf", "fmt.Fprint", "fmt.Fprintln":
+		if len(call.Args) == 0 {
+			return false
+		}
+		o := builderObj(info, call.Args[0])
+		if o == nil {
+			return false
+		}
+		if _, known := fr.env[o]; !known {
+			return false
+		}
+		rest := &ast.CallExpr{Fun: call.Fun, Lparen: call.Lparen, Args: call.Args[1:], Rparen: call.Rparen}
+		switch f.Name() {
+		case "Fprintf":
+			if len(rest.Args) == 0 {
+				return false
+			}
+			appendTo(o, se.sprintf(fr, rest))
+		default:
+			var parts []Shape
+			for i, a := range rest.Args {
+				if i > 0 && f.Name() == "Fprintln" {
+					parts = append(parts, &SLit{" "})
+				}
+				if isStringType(info.TypeOf(a)) {
+					parts = append(parts, se.expr(fr, a))
+				} else {
+					parts = append(parts, se.hole(fr, "v", a))
+				}
+			}
+			if f.Name() == "Fprintln" {
+				parts = append(parts, &SLit{"\n"})
+			}
+			appendTo(o, cat(parts...))
+		}
+		return true
+	}
+	return false
 }
